@@ -1,21 +1,729 @@
-//! Monitor for property C06 (see /verif/DESIGN.md §6).
+//! Monitor for property C06 (see /verif/DESIGN.md §6): integers, dimensions and glue scan, print
+//! and compute exactly as TeX does.
+//!
+//! Two layers. Function level: `common::Scaled`/`common::Glue` called directly (print/parse round
+//! trip over every |s| <= 2^30-1, arithmetic helpers on boundary + random operands). VM level:
+//! generated register commands executed one by one on a real texlang VM in `\nonstopmode`; the
+//! registers are read from the VM state before and after each statement and the model
+//! (`vmodels::texarith`, a transcription of the relevant sections of tex.web working on tokens)
+//! predicts register values, the text of `\the`, and the recovered errors.
+
+mod fnlevel;
+mod gen;
+mod vmlevel;
+
 use vcore::*;
+use vmodels::texarith as m;
 
 pub struct M;
 pub static MONITOR: M = M;
+
+const STATEMENTS_PER_VM: u64 = 200;
 
 impl Monitor for M {
     fn id(&self) -> &'static str {
         "C06"
     }
+
     fn rule(&self) -> String {
-        "not built yet".into()
+        "fn_roundtrip: idx = chunk of 2^20 consecutive scaled values s in [-(2^30-1), 2^30-1]; thorough visits every \
+         value (the whole quantifier, exhaustive), quick every 257th (offset = seed mod 257) plus the values next to \
+         multiples of 2^15, powers of 2 and 10 and the chunk ends; for each s: Display == print_scaled(§103) digit for \
+         digit, parse_no_units and parse_from_string of the printed text return s; every value is distinct by \
+         construction. fn_arith: idx seeds 1500 boundary-biased operand tuples for each of xn_over_d, nx_plus_y, \
+         from_decimal_digits, Scaled::new and 500 glue pairs (Display, wrapping_add, checked_mul, checked_div). \
+         fn_units: Scaled::new for each physical unit on integer parts 0..7399 and +-60 around the overflow threshold x \
+         10 boundary fractions + 4 random ones. vm_pairs: idx = (operation, register kind, left operand a from the \
+         30-value boundary set [, glue shape]); the register is set to a (through \\advance where a is beyond TeX's \
+         limits) and the operation applied with every right operand b of the boundary set, as a constant and through \
+         a register. vm_random: idx seeds 200 random register commands (constants in 4 radices with sign strings, \
+         all units, 0-20 fraction digits incl. exact 17-digit midpoints, coercions, internal quantities as units, \
+         round trips through \\the) run on one VM, state carried over. A VM statement is non-trivial if the model \
+         accepts it as inside the quantifier and TeX's result is implementation independent; distinct = distinct \
+         (statement text, registers before)."
+            .into()
     }
+
     fn assumptions(&self) -> Vec<String> {
-        vec![]
+        vec![
+            "The reference model (vmodels/src/texarith.rs) is our own transcription of tex.web §65, §102-107, §177-178, §407, §413, §429-431, §440-462, §1236-1240; no TeX binary exists in the sandbox. It is calibrated against the unit-test tables of crates/texlang/src/parse/{integer,dimen,glue}.rs, crates/texlang-stdlib/src/math.rs, TeXbook facts (1in=72.26999pt ...) and the decimals real TeX printed into crates/boxworks-knuthplass/testdata (each must be a fixed point of scan o print).".into(),
+            "\\advance wraps modulo 2^32 (property statement). Where TeX's own algorithm would negate -2^31 (sign strings applied to, products and quotients of -2^31) TeX82 is implementation-defined: such cases are executed and only required not to crash.".into(),
+            "em = ex = 12pt (TexlangState defaults; VState does not override them). `true` units, mu units and non-standard category codes are outside the quantifier and not generated.".into(),
+            "The order of infinity of a zero stretch/shrink cannot be observed in TeX (\\the omits it, §1239 normalises it, trap_zero_glue); register values are compared after setting it to normal.".into(),
+            "Recovered errors are counted through VState's recoverable_error_hook; their class is taken from the error title (unrecognised titles never raise a violation by themselves).".into(),
+        ]
     }
-    fn phases(&self, _tier: Tier) -> Vec<Phase> {
-        vec![]
+
+    fn phases(&self, tier: Tier) -> Vec<Phase> {
+        let rt = Phase::new("fn_roundtrip", fnlevel::N_CHUNKS).batch(8);
+        let rt = if tier == Tier::Thorough {
+            rt.exhaustive("all 2^31-1 scaled values s with |s| <= 2^30-1: Display = print_scaled, parse_no_units(Display(s)) = s, parse_from_string(Display(s)) = s")
+        } else {
+            rt
+        };
+        vec![
+            Phase::new("known", known_cases().len() as u64).batch(1),
+            rt,
+            Phase::new("fn_units", 8 * fnlevel::UNIT_SLICES)
+                .batch(4)
+                .exhaustive("Scaled::new for 8 physical units x integer parts 0..7399 and +-60 around the overflow threshold x 10 boundary fractions"),
+            Phase::new("fn_arith", tier.pick(400, 8000)).batch(8),
+            Phase::new("vm_pairs", pairs_cases())
+                .batch(4)
+                .exhaustive("\\advance/\\multiply/\\divide on count, dimen, skip for all 30x30 operand pairs of the boundary set {0, +-1, +-2, +-3, +-(2^15-1..2^15+1), +-(2^16-1..2^16+1), +-(2^30-1..2^30+1), +-(2^31-2), +-(2^31-1), -2^31}"),
+            Phase::new("vm_random", tier.pick(15_000, 400_000)).batch(16),
+        ]
     }
-    fn run_case(&self, _phase: &str, _idx: u64, _rng: &mut Rng, _obs: &mut Obs) {}
+
+    fn floors(&self, tier: Tier) -> Vec<(&'static str, u64)> {
+        let q = tier == Tier::Quick;
+        let f = |a: u64, b: u64| if q { a } else { b };
+        vec![
+            ("roundtrip:values", f(8_000_000, (1u64 << 31) - 1)),
+            ("roundtrip:fraction_digits=1", f(50, 10_000)),
+            ("roundtrip:fraction_digits=5", f(4_000_000, 1 << 30)),
+            ("roundtrip:negative_values", f(4_000_000, 1 << 30)),
+            ("fn:xn_over_d", f(100_000, 2_000_000)),
+            ("fn:xn_over_d:overflow", f(1000, 20_000)),
+            ("fn:nx_plus_y", f(100_000, 2_000_000)),
+            ("fn:nx_plus_y:overflow", f(1000, 20_000)),
+            ("fn:from_decimal_digits", f(100_000, 2_000_000)),
+            ("fn:Scaled::new", f(1_000_000, 1_000_000)),
+            ("fn:Scaled::new:overflow", f(10_000, 10_000)),
+            ("fn:Glue::wrapping_add", f(50_000, 1_000_000)),
+            ("vm:statements", f(2_500_000, 70_000_000)),
+            ("vm:agree", f(2_300_000, 65_000_000)),
+            ("vm:vm_pairs:advance:count", 1500),
+            ("vm:vm_pairs:multiply:count", 1500),
+            ("vm:vm_pairs:divide:count", 1500),
+            ("vm:vm_pairs:advance:dimen", 1500),
+            ("vm:vm_pairs:multiply:dimen", 1500),
+            ("vm:vm_pairs:divide:dimen", 1500),
+            ("vm:vm_pairs:advance:skip", 1500),
+            ("vm:vm_pairs:multiply:skip", 1500),
+            ("vm:vm_pairs:divide:skip", 1500),
+            ("pairs:operand_pairs_realised", 7000),
+            ("vm:expected_error:NumberTooBig", f(2000, 100_000)),
+            ("vm:expected_error:DimensionTooLarge", f(5000, 250_000)),
+            ("vm:expected_error:OverflowMultiply", f(2000, 50_000)),
+            ("vm:expected_error:OverflowDivide", f(500, 10_000)),
+            ("vm:expected_error:IllegalFilll", 0),
+            ("vm:statements_without_error", f(1_500_000, 40_000_000)),
+            ("seen:radix8", f(5000, 250_000)),
+            ("seen:radix16", f(5000, 250_000)),
+            ("seen:alphabetic_char", f(500, 25_000)),
+            ("seen:alphabetic_cs", f(500, 25_000)),
+            ("seen:multi_sign_strings", f(5000, 250_000)),
+            ("seen:fractions", f(30_000, 1_500_000)),
+            ("seen:fractions_over_17_digits", f(1000, 50_000)),
+            ("seen:fraction_with_20_digits", f(50, 2500)),
+            ("seen:comma_as_point", f(2000, 100_000)),
+            ("seen:unit:pt", f(5000, 250_000)),
+            ("seen:unit:pc", f(1000, 50_000)),
+            ("seen:unit:in", f(1000, 50_000)),
+            ("seen:unit:bp", f(1000, 50_000)),
+            ("seen:unit:cm", f(1000, 50_000)),
+            ("seen:unit:mm", f(1000, 50_000)),
+            ("seen:unit:dd", f(1000, 50_000)),
+            ("seen:unit:cc", f(1000, 50_000)),
+            ("seen:unit:sp", f(5000, 250_000)),
+            ("seen:unit:em", f(1000, 50_000)),
+            ("seen:unit:ex", f(1000, 50_000)),
+            ("seen:fil_order:1", f(1000, 50_000)),
+            ("seen:fil_order:2", f(1000, 50_000)),
+            ("seen:fil_order:3", f(1000, 50_000)),
+            ("seen:coerce_dimen_to_int", f(1000, 50_000)),
+            ("seen:coerce_glue_to_int", f(1000, 50_000)),
+            ("seen:coerce_glue_to_dimen", f(1000, 50_000)),
+            ("seen:int_as_dimen_factor", f(1000, 50_000)),
+            ("seen:internal_unit", f(3000, 150_000)),
+            ("seen:the_expansions_inside_values", f(3000, 150_000)),
+            ("seen:wrapped_advance", f(500, 10_000)),
+        ]
+    }
+
+    fn calibrate(&self, obs: &mut Obs) {
+        calibrate(obs);
+    }
+
+    fn run_case(&self, phase: &str, idx: u64, rng: &mut Rng, obs: &mut Obs) {
+        match phase {
+            "fn_roundtrip" => fnlevel::roundtrip_chunk(idx, obs),
+            "fn_arith" => fnlevel::arith_case(rng, obs),
+            "fn_units" => fnlevel::units_case(idx, rng, obs),
+            "vm_pairs" => pairs_case(idx, rng, obs),
+            "vm_random" => random_case(rng, obs),
+            "known" => known_case(idx, obs),
+            _ => obs.inconclusive(format!("unknown phase {phase}")),
+        }
+    }
+}
+
+// ------------------------------------------------------------------------------------------
+// vm_random
+// ------------------------------------------------------------------------------------------
+
+fn random_case(rng: &mut Rng, obs: &mut Obs) {
+    let mut runner = vmlevel::Runner::new();
+    let mut texts: Vec<String> = vec![];
+    for _ in 0..STATEMENTS_PER_VM {
+        let text = gen::Gen::new(rng).statement();
+        runner.check_statement(obs, &text, "vm_random");
+        if obs.verbose {
+            texts.push(text);
+        }
+    }
+    if obs.verbose {
+        println!("statements:\n{}", texts.join("\n"));
+    }
+}
+
+// ------------------------------------------------------------------------------------------
+// vm_pairs
+// ------------------------------------------------------------------------------------------
+
+const OPS: [&str; 3] = ["advance", "multiply", "divide"];
+const SKIP_SHAPES: u64 = 4;
+
+fn pairs_cases() -> u64 {
+    let b = gen::boundary_set().len() as u64;
+    // count, dimen: 3 ops x b; skip: 3 ops x b x shapes
+    3 * b * 2 + 3 * b * SKIP_SHAPES
+}
+
+fn order_n(i: u64) -> m::Order {
+    match i % 4 {
+        0 => m::Order::Normal,
+        1 => m::Order::Fil,
+        2 => m::Order::Fill,
+        _ => m::Order::Filll,
+    }
+}
+
+/// Glue built around the boundary value `a`: the other components are other boundary values.
+fn glue_around(b: &[i64], ai: usize, shape: u64) -> m::Glue {
+    let n = b.len();
+    match shape {
+        0 => m::Glue {
+            width: b[ai],
+            stretch: 0,
+            stretch_order: m::Order::Normal,
+            shrink: 0,
+            shrink_order: m::Order::Normal,
+        },
+        1 => m::Glue {
+            width: b[(ai + 7) % n],
+            stretch: b[ai],
+            stretch_order: order_n(ai as u64),
+            shrink: b[(ai + 13) % n],
+            shrink_order: order_n(ai as u64 / 4),
+        },
+        2 => m::Glue {
+            width: b[(ai + 3) % n],
+            stretch: b[(ai + 11) % n],
+            stretch_order: order_n(ai as u64 + 1),
+            shrink: b[ai],
+            shrink_order: order_n(ai as u64 + 2),
+        },
+        _ => m::Glue {
+            width: b[ai],
+            stretch: b[ai],
+            stretch_order: order_n(ai as u64 / 2),
+            shrink: b[ai],
+            shrink_order: order_n(ai as u64 / 3 + 1),
+        },
+    }
+}
+
+fn pairs_case(idx: u64, rng: &mut Rng, obs: &mut Obs) {
+    let b = gen::boundary_set();
+    let nb = b.len() as u64;
+    // decode idx
+    let (kind, op, ai, shape) = if idx < 3 * nb * 2 {
+        let kind = if idx < 3 * nb { m::Kind::Count } else { m::Kind::Dimen };
+        let j = idx % (3 * nb);
+        (kind, OPS[(j / nb) as usize], (j % nb) as usize, 0)
+    } else {
+        let j = idx - 3 * nb * 2;
+        let shape = j % SKIP_SHAPES;
+        let j = j / SKIP_SHAPES;
+        (m::Kind::Skip, OPS[(j / nb) as usize], (j % nb) as usize, shape)
+    };
+    let a = b[ai];
+    let mut runner = vmlevel::Runner::new();
+    let kn = vmlevel::kind_name(kind);
+    // right operands: the boundary set + 4 random values
+    let mut rights: Vec<i64> = b.clone();
+    for _ in 0..4 {
+        rights.push(rng.i32_hostile() as i64);
+    }
+    for (bi, rb) in rights.iter().copied().enumerate() {
+        // forms of the right operand: constant (if it can be written) and register 7
+        for form in 0..2 {
+            // left operand into register 1
+            let a_glue = glue_around(&b, ai, shape);
+            let setup: Vec<String> = match kind {
+                m::Kind::Count => gen::set_count(1, a),
+                m::Kind::Dimen => gen::set_dimen(1, a),
+                m::Kind::Skip => gen::set_skip(1, &a_glue),
+            };
+            for s in &setup {
+                runner.check_statement(obs, s, "vm_pairs_setup");
+            }
+            // right operand
+            let b_glue = glue_around(&b, bi % b.len(), (shape + bi as u64) % SKIP_SHAPES);
+            let b_glue = m::Glue { width: rb, ..b_glue };
+            let operand: String;
+            if op == "advance" {
+                match kind {
+                    m::Kind::Count => {
+                        if form == 0 && rb != m::MIN32 {
+                            operand = format!("{rb}");
+                        } else {
+                            for s in gen::set_count(7, rb) {
+                                runner.check_statement(obs, &s, "vm_pairs_setup");
+                            }
+                            operand = "\\count7".into();
+                        }
+                    }
+                    m::Kind::Dimen => {
+                        if form == 0 && rb.abs() <= m::MAX_DIMEN {
+                            operand = format!("{rb}sp");
+                        } else {
+                            for s in gen::set_dimen(7, rb) {
+                                runner.check_statement(obs, &s, "vm_pairs_setup");
+                            }
+                            operand = "\\dimen7".into();
+                        }
+                    }
+                    m::Kind::Skip => {
+                        for s in gen::set_skip(7, &b_glue) {
+                            runner.check_statement(obs, &s, "vm_pairs_setup");
+                        }
+                        operand = if form == 0 { "\\skip7".into() } else { "-\\skip7".into() };
+                    }
+                }
+            } else if form == 0 && rb != m::MIN32 {
+                operand = format!("{rb}");
+            } else {
+                for s in gen::set_count(7, rb) {
+                    runner.check_statement(obs, &s, "vm_pairs_setup");
+                }
+                operand = "\\count7".into();
+            }
+            // did the set-up reach the intended operands?
+            if let Some(regs) = runner.regs(obs) {
+                let left_ok = match kind {
+                    m::Kind::Count => regs.count[1] == a,
+                    m::Kind::Dimen => regs.dimen[1] == a,
+                    m::Kind::Skip => regs.skip[1].canonical() == a_glue.canonical(),
+                };
+                if left_ok {
+                    obs.count("pairs:operand_pairs_realised");
+                } else {
+                    obs.count("pairs:left_operand_not_reached");
+                }
+            }
+            let text = format!("\\{op}\\{kn}1 by {operand}");
+            runner.check_statement(obs, &text, "vm_pairs");
+        }
+    }
+}
+
+// ------------------------------------------------------------------------------------------
+// known: fixed reproducers
+// ------------------------------------------------------------------------------------------
+
+struct KnownCase {
+    id: &'static str,
+    /// run unchecked before the statements (macro definitions)
+    setup: &'static str,
+    /// statements checked through the ordinary pipeline (deviation models attribute them)
+    statements: &'static [&'static str],
+    /// for defects without a deviation model: (VM text, model text, output today)
+    special: Option<(&'static str, &'static str, &'static str)>,
+}
+
+fn known_cases() -> Vec<KnownCase> {
+    vec![
+        KnownCase {
+            id: vmlevel::ID_MULT,
+            setup: "",
+            statements: &["\\count1=-1073741824", "\\multiply\\count1 by 2"],
+            special: None,
+        },
+        KnownCase {
+            id: vmlevel::ID_GLUE_ADD,
+            setup: "",
+            statements: &["\\skip1=1pt plus 0fil", "\\advance\\skip1 by 0pt plus 1pt"],
+            special: None,
+        },
+        KnownCase {
+            id: vmlevel::ID_INTERNAL_DIMEN,
+            setup: "",
+            statements: &[
+                "\\dimen2=16383.99998pt",
+                "\\advance\\dimen2 by \\dimen2",
+                "\\dimen1=\\dimen2",
+            ],
+            special: None,
+        },
+        KnownCase {
+            id: vmlevel::ID_CLAMP_SIGN,
+            setup: "",
+            statements: &["\\dimen2=-1pt", "\\dimen1=20000\\dimen2"],
+            special: None,
+        },
+        KnownCase {
+            id: vmlevel::ID_FIL_CARRY,
+            setup: "",
+            statements: &["\\skip1=0pt plus 16383.99999999fil"],
+            special: None,
+        },
+        KnownCase {
+            id: "no-crash: internal integer -2^31 as the factor of a dimension (fixed in /repo f60ce3e)",
+            setup: "",
+            statements: &["\\count1=-2147483647", "\\advance\\count1 by -1", "\\dimen1=\\count1 sp"],
+            special: None,
+        },
+        KnownCase {
+            id: "no-crash: internal integer -2^31 as the factor of a glue width (fixed in /repo f60ce3e)",
+            setup: "",
+            statements: &["\\count1=-2147483647", "\\advance\\count1 by -1", "\\skip1=\\count1 sp"],
+            special: None,
+        },
+        KnownCase {
+            id: "C06-panic-negate-min-scaled",
+            setup: "",
+            statements: &["\\count2=-2147483647", "\\advance\\count2 by -1", "\\dimen1=1pt", "\\multiply\\dimen1 by \\count2"],
+            special: None,
+        },
+        KnownCase {
+            id: "C06-panic-multiply-sign-min-scaled",
+            setup: "",
+            statements: &[
+                "\\dimen2=-16383.99998pt",
+                "\\advance\\dimen2 by \\dimen2",
+                "\\advance\\dimen2 by -2sp",
+                "\\dimen1=-\\dimen2",
+            ],
+            special: None,
+        },
+        KnownCase {
+            id: "C06-panic-internal-unit-fraction",
+            setup: "",
+            statements: &["\\dimen1=16383.99998pt", "\\advance\\dimen1 by \\dimen1", "\\dimen3=0.99999\\dimen1"],
+            special: None,
+        },
+        KnownCase {
+            id: "C06-fil-l-space",
+            setup: "",
+            statements: &[],
+            // TeX §454: `while scan_keyword("l")` skips blanks before each l
+            special: Some(("\\skip1=0pt plus 1fil l", "\\skip1=0pt plus 1fil l", "l0.0pt plus 1.0fil")),
+        },
+        KnownCase {
+            id: "C06-keyword-after-several-spaces",
+            setup: "\\def\\s{ }",
+            statements: &[],
+            // §407 scan_keyword skips any number of blanks before the keyword
+            special: Some(("\\dimen1=1\\s\\s pt", "\\dimen1=1\\s\\s pt", "pt1.0pt")),
+        },
+        KnownCase {
+            id: "C06-alphabetic-constant-expands",
+            setup: "\\def\\a{xyz}",
+            statements: &[],
+            // §442 get_token: the token after ` is not expanded
+            special: Some(("\\count1=`\\a ", "\\count1=`\\a ", "yz120")),
+        },
+    ]
+}
+
+fn known_case(idx: u64, obs: &mut Obs) {
+    let cases = known_cases();
+    let Some(c) = cases.get(idx as usize) else {
+        return;
+    };
+    let mut runner = vmlevel::Runner::new();
+    if !c.setup.is_empty() && !runner.run_unchecked(obs, c.setup) {
+        return;
+    }
+    for s in c.statements {
+        runner.check_statement(obs, s, "known");
+    }
+    if let Some((vm_text, model_text, today)) = c.special {
+        // model tokens: `\s` stands for one space token (it is `\def\s{ }` in the VM)
+        let toks = match m::lex(&format!("{model_text}\\relax")) {
+            Ok(t) => t,
+            Err(e) => {
+                obs.inconclusive(format!("known case does not lex: {e:?}"));
+                return;
+            }
+        };
+        let toks: Vec<m::Tok> = toks
+            .into_iter()
+            .map(|t| if t == m::Tok::Cs("s".into()) { m::Tok::Space } else { t })
+            .collect();
+        let Some(pre) = runner.regs(obs) else { return };
+        let mut mach = m::Machine::new(toks, pre.clone(), m::Deviations::default());
+        if let Err(e) = mach.do_register_command() {
+            obs.inconclusive(format!("known case rejected by the model: {e:?}"));
+            return;
+        }
+        let Some(target) = vmlevel::target_of(model_text) else {
+            obs.inconclusive("known case without target");
+            return;
+        };
+        let tex_text = m::the_register(&mach.regs, target.kind, target.reg);
+        let Some(observed) = runner.run_special(obs, vm_text, target) else {
+            return;
+        };
+        obs.count("vm:statements");
+        obs.nontrivial(&(vm_text, "known"));
+        let tex_agrees = observed.out == tex_text
+            && observed.errors.len() == mach.errors.len()
+            && vmlevel::canonical_regs(&observed.regs) == vmlevel::canonical_regs(&mach.regs);
+        if tex_agrees {
+            obs.count("vm:agree");
+        } else if observed.out == today {
+            obs.known(
+                c.id,
+                json!({"setup": c.setup, "statement": vm_text, "observed": observed.out,
+                       "observed_errors": observed.errors, "tex": tex_text}),
+            );
+        } else {
+            obs.violation(
+                format!("known:{}", c.id),
+                json!({"setup": c.setup, "statement": vm_text, "observed": observed.out,
+                       "observed_errors": observed.errors, "tex": tex_text,
+                       "recorded_deviation": today}),
+            );
+        }
+    }
+}
+
+// ------------------------------------------------------------------------------------------
+// calibration
+// ------------------------------------------------------------------------------------------
+
+fn calibrate(obs: &mut Obs) {
+    use m::ErrKind::*;
+    // crates/texlang/src/parse/integer.rs (parse_success_tests / parse_failure_tests)
+    let ints: &[(&str, i64, usize)] = &[
+        ("'0", 0, 0),
+        ("'17", 15, 0),
+        ("'201", 129, 0),
+        ("'17777777777", 2147483647, 0),
+        ("-'17777777777", -2147483647, 0),
+        ("00019", 19, 0),
+        ("2147483647", 2147483647, 0),
+        ("-2147483647", -2147483647, 0),
+        ("\"1F", 31, 0),
+        ("\"201", 513, 0),
+        ("\"7FFFFFFF", 2147483647, 0),
+        ("-\"7FFFFFFF", -2147483647, 0),
+        ("`A", 65, 0),
+        ("`\\A", 65, 0),
+        ("+-4", -4, 0),
+        ("--4", 4, 0),
+        ("  -  - 4", 4, 0),
+        ("'177777777770", 2147483647, 1),
+        ("2147483648", 2147483647, 1),
+        ("500000000000000", 2147483647, 1),
+        ("-2147483648", -2147483647, 1),
+        ("\"7FFFFFFF0", 2147483647, 1),
+    ];
+    for (text, want, nerr) in ints {
+        match m::scan_int_text(text) {
+            Ok((v, e)) if v == *want && e.len() == *nerr && e.iter().all(|k| *k == NumberTooBig) => {}
+            other => obs.inconclusive(format!("calibration: scan_int({text:?}) = {other:?}, table says {want} with {nerr} errors")),
+        }
+    }
+    // crates/texlang/src/parse/dimen.rs + TeXbook facts (chapter 10)
+    let one = m::UNITY;
+    let dimens: &[(&str, i64, usize)] = &[
+        ("0pt", 0, 0),
+        ("1pt", one, 0),
+        ("-1pt", -one, 0),
+        (".pt", 0, 0),
+        ("0.5pt", 32768, 0),
+        ("-1.5pt", -98304, 0),
+        ("1in", one * 7227 / 100, 0),
+        ("1 in", one * 7227 / 100, 0),
+        ("0.075in", 355207, 0),
+        ("1pc", one * 12, 0),
+        ("1cm", one * 7227 / 254, 0),
+        ("1mm", one * 7227 / 2540, 0),
+        ("1bp", one * 7227 / 7200, 0),
+        ("1dd", one * 1238 / 1157, 0),
+        ("1cc", one * 14856 / 1157, 0),
+        ("1sp", 1, 0),
+        ("1.999999sp", 1, 0),
+        ("16383.99998pt", m::MAX_DIMEN, 0),
+        ("1073741823sp", m::MAX_DIMEN, 0),
+        ("1073741823.99999999sp", m::MAX_DIMEN, 0),
+        ("16384pt", m::MAX_DIMEN, 1),
+        ("-16384pt", -m::MAX_DIMEN, 1),
+        ("300in", m::MAX_DIMEN, 1),
+        ("-300in", -m::MAX_DIMEN, 1),
+        ("1073741824sp", m::MAX_DIMEN, 1),
+        ("-1073741824sp", -m::MAX_DIMEN, 1),
+        ("2em", 24 * one, 0),
+        ("2.5 EX ", 30 * one, 0),
+    ];
+    for (text, want, nerr) in dimens {
+        match m::scan_dimen_text(text) {
+            Ok((v, e)) if v == *want && e.len() == *nerr && e.iter().all(|k| *k == DimensionTooLarge) => {}
+            other => obs.inconclusive(format!("calibration: scan_dimen({text:?}) = {other:?}, table says {want} with {nerr} errors")),
+        }
+    }
+    // 300000000in: scan_int is fine, the conversion overflows: exactly one error
+    match m::scan_dimen_text("300000000in") {
+        Ok((v, e)) if v == m::MAX_DIMEN && e == vec![DimensionTooLarge] => {}
+        other => obs.inconclusive(format!("calibration: 300000000in -> {other:?}")),
+    }
+    // printed forms every TeX user knows (TeXbook ch. 10; \maxdimen; 1sp)
+    let printed: &[(&str, &str)] = &[
+        ("1in", "72.26999"),
+        ("1cm", "28.45274"),
+        ("1mm", "2.84526"),
+        ("1bp", "1.00374"),
+        ("1dd", "1.07"),
+        ("1cc", "12.8401"),
+        ("1pc", "12.0"),
+        ("1sp", "0.00002"),
+        ("16383.99999pt", "16383.99998"),
+        ("0.1pt", "0.1"),
+        ("7.2pt", "7.2"),
+        ("-0.3pt", "-0.3"),
+    ];
+    for (text, want) in printed {
+        match m::scan_dimen_text(text) {
+            Ok((v, _)) if m::print_scaled(v) == *want => {}
+            other => obs.inconclusive(format!("calibration: print_scaled(scan_dimen({text:?})) = {:?}, expected {want}", other.map(|x| m::print_scaled(x.0)))),
+        }
+    }
+    if m::print_scaled(m::MIN32) != "-32768.0" {
+        // crates/common/src/lib.rs print_smallest_scaled
+        obs.inconclusive("calibration: print_scaled(-2^31)");
+    }
+    // crates/texlang/src/parse/glue.rs
+    let glues: &[(&str, &str, usize)] = &[
+        ("0pt", "0.0pt", 0),
+        ("-1pt", "-1.0pt", 0),
+        ("1pt plus 1pt", "1.0pt plus 1.0pt", 0),
+        ("1pt plus 1fil", "1.0pt plus 1.0fil", 0),
+        ("1pt plus 1fill", "1.0pt plus 1.0fill", 0),
+        ("1pt plus 1filll", "1.0pt plus 1.0filll", 0),
+        ("1pt plus 30000000fil", "1.0pt plus 16383.99998fil", 1),
+        ("1pt plus -30000000fil", "1.0pt plus -16383.99998fil", 1),
+        ("1pt plus 2fillll", "1.0pt plus 2.0filll", 1),
+    ];
+    for (text, want, nerr) in glues {
+        match m::scan_glue_text(text) {
+            Ok((g, e)) if m::print_spec(&g) == *want && e.len() == *nerr => {}
+            other => obs.inconclusive(format!("calibration: scan_glue({text:?}) = {other:?}, table says {want}")),
+        }
+    }
+    // crates/texlang-stdlib/src/math.rs arithmetic_tests: (register, lhs, op, rhs, \the)
+    let arith: &[(&str, &str, &str, &str, &str, usize)] = &[
+        ("count", "1", "advance", "2", "3", 0),
+        ("count", "1", "advance", "by 2", "3", 0),
+        ("count", "2147483647", "advance", "1", "-2147483648", 0),
+        ("count", "-5", "multiply", "4", "-20", 0),
+        ("count", "-5", "multiply", "-4", "20", 0),
+        ("count", "9", "divide", "4", "2", 0),
+        ("count", "-9", "divide", "4", "-2", 0),
+        ("count", "9", "divide", "-4", "-2", 0),
+        ("count", "-9", "divide", "-4", "2", 0),
+        ("count", "100000", "multiply", "by 100000", "100000", 1),
+        ("count", "20", "divide", "by 0", "20", 1),
+        ("dimen", "1pt", "advance", "2pt", "3.0pt", 0),
+        ("dimen", "0.025pt", "advance", "0.5pt", "0.525pt", 0),
+        ("dimen", "10pt", "multiply", "2", "20.0pt", 0),
+        ("dimen", "10pt", "divide", "2", "5.0pt", 0),
+        ("skip", "1pt plus 2pt minus 3pt", "advance", "60pt plus 50pt minus 40pt", "61.0pt plus 52.0pt minus 43.0pt", 0),
+        ("skip", "1pt plus 2fill minus 3fil", "advance", "60pt plus 50pt minus 40filll", "61.0pt plus 2.0fill minus 40.0filll", 0),
+        ("skip", "1pt plus 2pt minus 1.25pt", "multiply", "2", "2.0pt plus 4.0pt minus 2.5pt", 0),
+        ("skip", "10pt plus 20pt minus 3pt", "divide", "2", "5.0pt plus 10.0pt minus 1.5pt", 0),
+    ];
+    for (reg, lhs, op, rhs, want, nerr) in arith {
+        let kind = match *reg {
+            "count" => m::Kind::Count,
+            "dimen" => m::Kind::Dimen,
+            _ => m::Kind::Skip,
+        };
+        let r1 = m::run_statement(&format!("\\{reg} 1 {lhs}\\relax"), &m::Regs::default(), m::Deviations::default());
+        let r2 = r1.and_then(|r| {
+            m::run_statement(&format!("\\{op}\\{reg} 1 {rhs}\\relax"), &r.regs, m::Deviations::default())
+        });
+        match r2 {
+            Ok(r) if m::the_register(&r.regs, kind, 1) == *want && r.errors.len() == *nerr => {}
+            other => obs.inconclusive(format!("calibration: \\{reg}1={lhs} \\{op} {rhs} -> {:?}, table says {want}", other.map(|r| m::the_register(&r.regs, kind, 1)))),
+        }
+    }
+    // decimals printed by real TeX (Knuth-Plass logs): fixed points of scan o print
+    let dir = vcore::repo_dir().join("crates/boxworks-knuthplass/testdata");
+    let mut seen = std::collections::BTreeSet::new();
+    if let Ok(rd) = std::fs::read_dir(&dir) {
+        let mut files: Vec<_> = rd.flatten().map(|e| e.path()).collect();
+        files.sort();
+        for f in files {
+            let name = f.file_name().and_then(|n| n.to_str()).unwrap_or("").to_string();
+            if !(name.ends_with("_log.txt") || name.ends_with("_want.txt")) {
+                continue;
+            }
+            let Ok(text) = std::fs::read_to_string(&f) else { continue };
+            for tok in decimals_in(&text) {
+                seen.insert(tok);
+            }
+        }
+    }
+    let mut fixed = 0u64;
+    for d in &seen {
+        match m::scan_dimen_text(&format!("{d}pt")) {
+            Ok((v, e)) if e.is_empty() && m::print_scaled(v) == *d => fixed += 1,
+            other => obs.inconclusive(format!("calibration: {d} (printed by TeX in the Knuth-Plass goldens) is not a fixed point of the model: {other:?}")),
+        }
+    }
+    obs.add("calibration:tex_printed_decimals_fixed_points", fixed);
+    if fixed < 100 {
+        obs.inconclusive(format!("calibration: only {fixed} TeX-printed decimals found in {dir:?}"));
+    }
+    obs.add(
+        "calibration:table_entries",
+        (ints.len() + dimens.len() + printed.len() + glues.len() + arith.len()) as u64,
+    );
+}
+
+/// `[-]digits.digits` tokens of a text (as TeX's print_scaled writes them).
+fn decimals_in(text: &str) -> Vec<String> {
+    let b = text.as_bytes();
+    let mut out = vec![];
+    let mut i = 0;
+    while i < b.len() {
+        if b[i].is_ascii_digit() && (i == 0 || !(b[i - 1].is_ascii_digit() || b[i - 1] == b'.')) {
+            let start = if i > 0 && b[i - 1] == b'-' { i - 1 } else { i };
+            let mut j = i;
+            while j < b.len() && b[j].is_ascii_digit() {
+                j += 1;
+            }
+            if j < b.len() && b[j] == b'.' && j + 1 < b.len() && b[j + 1].is_ascii_digit() {
+                let mut k = j + 1;
+                while k < b.len() && b[k].is_ascii_digit() {
+                    k += 1;
+                }
+                // not part of a longer dotted token (version numbers etc.)
+                if !(k < b.len() && b[k] == b'.') {
+                    out.push(text[start..k].to_string());
+                }
+                i = k;
+                continue;
+            }
+            i = j;
+            continue;
+        }
+        i += 1;
+    }
+    out
 }
